@@ -278,7 +278,7 @@ def assign (parseInt : Str → Except PyErr Int) (r : SRule) (v : PyV) : Assign 
     match v with
     | .str s => .store (if lower s = str "false" || lower s = str "0" then str "false" else str "true")
     | v => .store (if truthy v then str "true" else str "false")
-  | .className => .store (joinWith [' '] (words (tostr v)))
+  | .className => .store (joinWith [' '] (words (match v with | .none => [] | v => tostr v)))
   | _ => .store (tostr v)
 
 def empOf : Option Lit → Emp
